@@ -60,6 +60,18 @@ def gen(ctx):
         # truthiness: non-binary cells count as 1
         bits = [rng.choice([0, 1, 2, -1, 7]) for _ in range(rng.randint(1, 12))]
         yield dict(kind="b2i", bits=bits)
+    # sequences inside one process: the same rule number / table reused at different radii, in both orders
+    for _ in range(ctx.n(150, 1500)):
+        rule = rng.choice([rng.getrandbits(8), rng.getrandbits(3), rng.getrandbits(30), 1, 30, 110, 254])
+        radii = rng.choice([[3, 2, 1], [1, 2, 3], [3, 1], [2, 1, 0], [3, 3, 1, 2], [1, 3, 1]])
+        seq = []
+        for r in radii:
+            w = 2 * r + 1
+            for _ in range(rng.randint(1, 3)):
+                nb = rng.choice([[1] * w, [0] * w, [rng.randint(0, 1) for _ in range(w)]])
+                seq.append(dict(kind="br", n=nb, rule=rule % (1 << (2 ** w)), form=rng.choice(FORMS)))
+                seq[-1]["rule"] = rule if rule < (1 << (2 ** w)) else seq[-1]["rule"]
+        yield dict(kind="seq", seq=seq)
     # malformed stream
     for _ in range(ctx.n(200, 2000)):
         r = rng.choice([0, 1, 2])
@@ -87,6 +99,8 @@ def gen(ctx):
 
 def line(c):
     k = c["kind"]
+    if k == "seq":
+        return None
     if k == "b2i":
         return "bits_to_int bits=" + fmt.vec(c["bits"])
     if k == "rt":
@@ -162,6 +176,8 @@ def _call(c):
 def impl(c):
     if c["kind"] == "rt":
         return "n/a"
+    if c["kind"] == "seq":
+        return "|".join(impl(x) for x in c["seq"])
     try:
         v = _call(c)
     except Exception as e:  # noqa
@@ -175,6 +191,12 @@ def oracle(c):
     """The property evaluated on the implementation alone, against place-value arithmetic."""
     import cellpylib as cpl
     k = c["kind"]
+    if k == "seq":
+        for i, x in enumerate(c["seq"]):
+            bad = oracle(x)
+            if bad:
+                return "call %d of a sequence in one process: %s" % (i, bad)
+        return None
     if k == "b2i":
         want = sum((1 if b else 0) << (len(c["bits"]) - 1 - i) for i, b in enumerate(c["bits"]))
         got = cpl.bits_to_int(c["bits"])
@@ -213,6 +235,8 @@ def oracle(c):
 
 
 def nontrivial(c, ans):
+    if c["kind"] == "seq":
+        return True
     if c["kind"] == "br":
         w = len(c["n"])
         return ans.startswith("ok") and 0 < c["rule"] < (1 << (2 ** w)) - 1
@@ -220,6 +244,11 @@ def nontrivial(c, ans):
 
 
 def shrink(c):
+    if c["kind"] == "seq":
+        for i in range(len(c["seq"])):
+            if len(c["seq"]) > 1:
+                yield dict(c, seq=c["seq"][:i] + c["seq"][i + 1:])
+        return
     if c["kind"] == "br" and len(c["n"]) > 1:
         w = len(c["n"]) - 2
         if w >= 1:
